@@ -37,10 +37,10 @@ Proof. induction l as [|r l IH]; [reflexivity|]. simpl. rewrite late_tie, IH. re
 Lemma apply_linear_tie ro d t w es fp : apply_linear_src ro d t w es fp = apply_linear ro d t w es fp.
 Proof.
   unfold apply_linear_src, apply_linear, queries, knots, start.
-  assert (Er : map (fun e => recv_src Qops (e_seq e) (e_sent e) (e_recv e) d) es = map (recv_d d) es).
-  { apply map_ext. intros e. unfold recv_src, recv_d. destruct (e_seq e <? 0)%Z; reflexivity. }
-  assert (Em : map (fun e => mask_src Qops ro (e_seq e) (recv_src Qops (e_seq e) (e_sent e) (e_recv e) d)) es = map (mask ro d) es).
-  { apply map_ext. intros e. unfold mask_src, mask, recv_src, recv_d. destruct ro, (e_seq e <? 0)%Z; reflexivity. }
+  assert (Er : map (fun e => k_recv Qops (e_seq e) (e_sent e) (e_recv e) d) es = map (recv_d d) es).
+  { apply map_ext. intros e. unfold k_recv, recv_d. destruct (e_seq e <? 0)%Z; reflexivity. }
+  assert (Em : map (fun e => k_mask Qops ro (e_seq e) (k_recv Qops (e_seq e) (e_sent e) (e_recv e) d)) es = map (mask ro d) es).
+  { apply map_ext. intros e. unfold k_mask, mask, k_recv, recv_d. destruct ro, (e_seq e <? 0)%Z; reflexivity. }
   rewrite Er, Em, first_late_tie.
   unfold dyn_start. replace (idx_min_src (Z.of_nat (first_gt t (map (recv_d d) es))) (Z.of_nat w))
     with (Z.of_nat (first_gt t (map (recv_d d) es)) - Z.of_nat w)%Z by (unfold idx_min_src; lia).
